@@ -41,3 +41,100 @@ package msgpackpatch
 //@   nopanic
 //@   ensures[in_range] err == nil ==> 0 <= idx && idx < length && (want >= 0 ==> idx == want) && (want < 0 ==> idx == length + want)
 //@   ensures[out_of_range] (want >= length || want < 0 - length) ==> err != nil
+
+// ---------------------------------------------------------------------------------------
+// Leaf replacement: a rewritten leaf carries its own bytes and the type code of exactly those
+// bytes (INC re-encodes with LeafCode, so a stale code would re-encode with the wrong width).
+//@ func replaceWithLeaf(target, raw)
+//@   property C13
+//@   nopanic
+//@   requires[args] target != nil && len(raw) > 0
+//@   modifies target.Kind, target.RawBytes, target.LeafCode, target.MapFields, target.ArrayItems
+//@   ensures[leaf_carries_the_new_bytes] target.Kind == KindLeaf && sliceid(target.RawBytes) == sliceid(raw) && len(target.RawBytes) == len(raw) && sliceoff(target.RawBytes) == sliceoff(raw)
+//@   ensures[code_is_the_lead_byte_of_the_new_bytes] target.LeafCode == raw[0]
+//@   ensures[no_children_left] isnil(target.MapFields) && isnil(target.ArrayItems)
+//@ func newLeaf(raw) (s)
+//@   property C13
+//@   nopanic
+//@   requires[args] len(raw) > 0
+//@   ensures[leaf] s != nil && fresh(s) && s.Kind == KindLeaf && s.LeafCode == raw[0] && sliceid(s.RawBytes) == sliceid(raw) && len(s.RawBytes) == len(raw)
+
+// The msgpack library's encoder/decoder: assumed to have no effect on memory visible to these
+// contracts (the call history records which method was used with which argument).
+//@ trusted func (*github.com/vmihailenco/msgpack/v5.Encoder).EncodeInt8(e, n) (err)
+//@ trusted func (*github.com/vmihailenco/msgpack/v5.Encoder).EncodeInt16(e, n) (err)
+//@ trusted func (*github.com/vmihailenco/msgpack/v5.Encoder).EncodeInt32(e, n) (err)
+//@ trusted func (*github.com/vmihailenco/msgpack/v5.Encoder).EncodeInt64(e, n) (err)
+//@ trusted func (*github.com/vmihailenco/msgpack/v5.Encoder).EncodeUint8(e, n) (err)
+//@ trusted func (*github.com/vmihailenco/msgpack/v5.Encoder).EncodeUint16(e, n) (err)
+//@ trusted func (*github.com/vmihailenco/msgpack/v5.Encoder).EncodeUint32(e, n) (err)
+//@ trusted func (*github.com/vmihailenco/msgpack/v5.Encoder).EncodeUint64(e, n) (err)
+//@ trusted func (*github.com/vmihailenco/msgpack/v5.Encoder).EncodeFloat32(e, n) (err)
+//@ trusted func (*github.com/vmihailenco/msgpack/v5.Encoder).EncodeFloat64(e, n) (err)
+//@ trusted func (*github.com/vmihailenco/msgpack/v5.Encoder).EncodeMapLen(e, n) (err)
+//@ trusted func (*github.com/vmihailenco/msgpack/v5.Encoder).EncodeArrayLen(e, n) (err)
+//@ trusted func (*github.com/vmihailenco/msgpack/v5.Encoder).EncodeString(e, s) (err)
+//@ trusted func github.com/vmihailenco/msgpack/v5.NewEncoder(w) (e)
+//@   ensures e != nil
+
+// Type-preserving INC: the re-encoding uses the encoder whose width is the target's type code
+// (int8 stays int8, ... ; fixints are widened to the 64-bit form), with the sum as its argument.
+//@ func encodeIntWithCode(code, n) (out, err)
+//@   property C13
+//@   nopanic
+//@   overflow: assumed
+//@   modifies *
+//@   ensures[int8_stays_int8] code == codeInt8 ==> calls("Encoder.EncodeInt8") == old(calls("Encoder.EncodeInt8")) + 1 && calls("Encoder.EncodeInt16") + calls("Encoder.EncodeInt32") + calls("Encoder.EncodeInt64") == old(calls("Encoder.EncodeInt16") + calls("Encoder.EncodeInt32") + calls("Encoder.EncodeInt64"))
+//@   ensures[int16_stays_int16] code == codeInt16 ==> calls("Encoder.EncodeInt16") == old(calls("Encoder.EncodeInt16")) + 1 && calls("Encoder.EncodeInt8") + calls("Encoder.EncodeInt32") + calls("Encoder.EncodeInt64") == old(calls("Encoder.EncodeInt8") + calls("Encoder.EncodeInt32") + calls("Encoder.EncodeInt64"))
+//@   ensures[int32_stays_int32] code == codeInt32 ==> calls("Encoder.EncodeInt32") == old(calls("Encoder.EncodeInt32")) + 1 && calls("Encoder.EncodeInt8") + calls("Encoder.EncodeInt16") + calls("Encoder.EncodeInt64") == old(calls("Encoder.EncodeInt8") + calls("Encoder.EncodeInt16") + calls("Encoder.EncodeInt64"))
+//@   ensures[others_are_int64] code != codeInt8 && code != codeInt16 && code != codeInt32 ==> calls("Encoder.EncodeInt64") == old(calls("Encoder.EncodeInt64")) + 1 && calledwith("Encoder.EncodeInt64", 1, n)
+//@ func encodeUintWithCode(code, n) (out, err)
+//@   property C13
+//@   nopanic
+//@   overflow: assumed
+//@   modifies *
+//@   ensures[uint8_stays_uint8] code == codeUint8 ==> calls("Encoder.EncodeUint8") == old(calls("Encoder.EncodeUint8")) + 1 && calls("Encoder.EncodeUint16") + calls("Encoder.EncodeUint32") + calls("Encoder.EncodeUint64") == old(calls("Encoder.EncodeUint16") + calls("Encoder.EncodeUint32") + calls("Encoder.EncodeUint64"))
+//@   ensures[uint16_stays_uint16] code == codeUint16 ==> calls("Encoder.EncodeUint16") == old(calls("Encoder.EncodeUint16")) + 1 && calls("Encoder.EncodeUint8") + calls("Encoder.EncodeUint32") + calls("Encoder.EncodeUint64") == old(calls("Encoder.EncodeUint8") + calls("Encoder.EncodeUint32") + calls("Encoder.EncodeUint64"))
+//@   ensures[uint32_stays_uint32] code == codeUint32 ==> calls("Encoder.EncodeUint32") == old(calls("Encoder.EncodeUint32")) + 1 && calls("Encoder.EncodeUint8") + calls("Encoder.EncodeUint16") + calls("Encoder.EncodeUint64") == old(calls("Encoder.EncodeUint8") + calls("Encoder.EncodeUint16") + calls("Encoder.EncodeUint64"))
+//@   ensures[others_are_uint64] code != codeUint8 && code != codeUint16 && code != codeUint32 ==> calls("Encoder.EncodeUint64") == old(calls("Encoder.EncodeUint64")) + 1 && calledwith("Encoder.EncodeUint64", 1, n)
+//@ func encodeFloatWithCode(code, n) (out, err)
+//@   property C13
+//@   nopanic
+//@   modifies *
+//@   ensures[float32_stays_float32] code == codeFloat32 ==> calls("Encoder.EncodeFloat32") == old(calls("Encoder.EncodeFloat32")) + 1 && calls("Encoder.EncodeFloat64") == old(calls("Encoder.EncodeFloat64"))
+//@   ensures[others_are_float64] code != codeFloat32 ==> calls("Encoder.EncodeFloat64") == old(calls("Encoder.EncodeFloat64")) + 1 && calls("Encoder.EncodeFloat32") == old(calls("Encoder.EncodeFloat32"))
+
+// computeIncBytes: each numeric class is re-encoded by its own encoder, with the target's code.
+//@ func computeIncBytes(code, class, ti, tu, tf, di, du, df) (out, err)
+//@   property C13
+//@   nopanic
+//@   overflow: assumed
+//@   modifies *
+//@   ensures[int_class] class == classInt ==> calls("encodeIntWithCode") == old(calls("encodeIntWithCode")) + 1 && calledwith("encodeIntWithCode", 0, code) && calls("encodeUintWithCode") == old(calls("encodeUintWithCode")) && calls("encodeFloatWithCode") == old(calls("encodeFloatWithCode"))
+//@   ensures[uint_class] class == classUint ==> calls("encodeUintWithCode") == old(calls("encodeUintWithCode")) + 1 && calledwith("encodeUintWithCode", 0, code) && calls("encodeIntWithCode") == old(calls("encodeIntWithCode")) && calls("encodeFloatWithCode") == old(calls("encodeFloatWithCode"))
+//@   ensures[float_class] class == classFloat ==> calls("encodeFloatWithCode") == old(calls("encodeFloatWithCode")) + 1 && calledwith("encodeFloatWithCode", 0, code)
+//@   ensures[unknown_class_is_error] class != classInt && class != classUint && class != classFloat ==> err != nil
+
+// Class-aware comparison: operands of one numeric class are compared by that class's comparator
+// on the decoded values (unsigned as unsigned, signed as signed, floats as floats); operands of
+// different numeric classes are a type mismatch, never an ordering.
+//@ func readNumericLeaf(raw) (i, u, f, class, err)
+//@   opaque
+//@ func compareLeafBytes(a, b) (r, err)
+//@   property C13
+//@   modifies *
+//@   ensures[unsigned_compare_as_unsigned] err == nil && calls("readNumericLeaf") == old(calls("readNumericLeaf")) + 2 && lastret("readNumericLeaf", 3) == classUint && lastret("prev:readNumericLeaf", 3) == classUint ==> calls("cmpUint64") == old(calls("cmpUint64")) + 1 && calledwith("cmpUint64", 0, lastret("prev:readNumericLeaf", 1)) && calledwith("cmpUint64", 1, lastret("readNumericLeaf", 1)) && r == lastret("cmpUint64")
+//@   ensures[signed_compare_as_signed] err == nil && calls("readNumericLeaf") == old(calls("readNumericLeaf")) + 2 && lastret("readNumericLeaf", 3) == classInt && lastret("prev:readNumericLeaf", 3) == classInt ==> calls("cmpInt64") == old(calls("cmpInt64")) + 1 && calledwith("cmpInt64", 0, lastret("prev:readNumericLeaf", 0)) && calledwith("cmpInt64", 1, lastret("readNumericLeaf", 0)) && r == lastret("cmpInt64")
+//@   ensures[floats_compare_as_floats] err == nil && calls("readNumericLeaf") == old(calls("readNumericLeaf")) + 2 && lastret("readNumericLeaf", 3) == classFloat && lastret("prev:readNumericLeaf", 3) == classFloat ==> calls("cmpFloat64") == old(calls("cmpFloat64")) + 1 && r == lastret("cmpFloat64")
+//@   ensures[class_mismatch_is_error] calls("readNumericLeaf") == old(calls("readNumericLeaf")) + 2 && isnil(lastret("readNumericLeaf", 4)) && lastret("readNumericLeaf", 3) != lastret("prev:readNumericLeaf", 3) ==> err != nil
+
+// Serialisation: a container header is the library's encoding of the CURRENT child count, and
+// every child is written (in order) after it.
+//@ func writeNode(s, orig, w, enc) (err)
+//@   property C13
+//@   requires[args] w != nil && enc != nil
+//@   modifies *
+//@   before Encoder.EncodeArrayLen [array_header_is_child_count] arg1 == len(s.ArrayItems) && s.Kind == KindArray
+//@   before Encoder.EncodeMapLen [map_header_is_field_count] arg1 == len(s.MapFields) && s.Kind == KindMap
+//@   ensures[array_header_written_by_the_encoder] old(s.Kind) == KindArray ==> calls("Encoder.EncodeArrayLen") == old(calls("Encoder.EncodeArrayLen")) + 1
+//@   ensures[map_header_written_by_the_encoder] old(s.Kind) == KindMap ==> calls("Encoder.EncodeMapLen") == old(calls("Encoder.EncodeMapLen")) + 1
